@@ -26,8 +26,8 @@ func init() {
 // ioEvent is one observed end-to-end call (C17 deliver / C18 faults).
 type ioEvent struct {
 	N      int    `json:"n"`
-	First  bool   `json:"first"`  // first event of a history (deliver: the all-at-once parse of a document)
-	Kind   string `json:"kind"`   // deliver | readfault | writefault | writeclean | longline | file
+	First  bool   `json:"first"` // first event of a history (deliver: the all-at-once parse of a document)
+	Kind   string `json:"kind"`  // deliver | readfault | writefault | writeclean | longline | file
 	Fmt    string `json:"fmt"`
 	Doc    string `json:"doc"`
 	Len    int    `json:"len"`
